@@ -68,14 +68,20 @@ func settlementsOf3(r *Runner, events []abci.Event) (settled, residue, returned 
 			if pending == nil || attr(e, "sender") != mod || (attr(e, "recipient") != pool && attr(e, "recipient") != fee) {
 				continue
 			}
+			// the forward may come in one piece or in several (per denomination, or part to the pool and part back
+			// to the fee collector): every piece that fits into what is still pending counts
 			c, err := sdk.ParseCoinsNormalized(attr(e, "amount"))
-			if err == nil && c.Equal(pending.coins) {
+			if err == nil && !c.IsZero() && c.IsAllLTE(pending.coins) {
+				piece := settlement{val: pending.val, coins: c}
 				if attr(e, "recipient") == pool {
-					settled = append(settled, *pending)
+					settled = append(settled, piece)
 				} else {
-					returned = append(returned, *pending)
+					returned = append(returned, piece)
 				}
-				pending = nil
+				pending.coins = pending.coins.Sub(c...)
+				if pending.coins.IsZero() {
+					pending = nil
+				}
 			}
 		}
 	}
